@@ -33,7 +33,10 @@ real_t __CPROVER_uninterpreted_atan(real_t); real_t __CPROVER_uninterpreted_sqrt
 #define v_cos(x) __CPROVER_uninterpreted_cos(x)
 #define v_tanh(x) __CPROVER_uninterpreted_tanh(x)
 #define v_atan(x) __CPROVER_uninterpreted_atan(x)
-#define v_sqrt(x) __CPROVER_uninterpreted_sqrt(x)
+/* sqrt logs its calls: the harness instantiates sqrt(x)^2 == x, sqrt(x) >= 0 at exactly these calls (x >= 0 assumed there) */
+static real_t sqrt_arg[16], sqrt_val[16]; static int sqrt_n;
+static real_t v_sqrt(real_t x) { real_t v = __CPROVER_uninterpreted_sqrt(x); __CPROVER_assert(sqrt_n < 16, "harness capacity"); sqrt_arg[sqrt_n] = x; sqrt_val[sqrt_n] = v; sqrt_n++; return v; }
+static void assume_sqrt_axioms(void) { for (int i = 0; i < sqrt_n; i++) __CPROVER_assume(sqrt_arg[i] >= 0 && sqrt_val[i] >= 0 && sqrt_val[i] * sqrt_val[i] == sqrt_arg[i]); }
 /* exp and pow log their calls so that the harness can instantiate the two axioms at exactly these calls */
 #define LOGN 16
 static real_t exp_arg[LOGN], exp_val[LOGN], pow_arg[LOGN], pow_val[LOGN]; static int pow_exp[LOGN], exp_n, pow_n;
@@ -380,8 +383,57 @@ def selection_job():
     return j
 
 
+def czarny_job():
+    """Czarny geometry: the mapping is algebraic, not polynomial.  Lemmas (obligations L1, L2, proved from the code's Fx, Fy with the
+    axiom sqrt(x)^2 == x): the mapping satisfies the POLYNOMIAL relations
+        P(Fx; r, c)      := (1 - eps Fx)^2 - (1 + eps^2 + 2 eps (r / Rmax) c)        == 0
+        Q(Fy, Fx; r, s)  := Fy (1 + eps Fx) - e xi (r / Rmax) s                      == 0.
+    Proof rule (implicit differentiation / chain rule, textbook): J is the partial derivative of F iff it satisfies the linear equation
+    obtained by differentiating the relation, as long as the coefficient of J does not vanish:
+        P_y J_x,r + P_r == 0,   P_y J_x,t + (P_s c - P_c s) == 0,   Q_y J_y,r + Q_x J_x,r + Q_r == 0,   Q_y J_y,t + Q_x J_x,t + (Q_s c - Q_c s) == 0,
+    where the partial derivatives of the polynomials P, Q are their exact central differences (degree <= 2 in every variable).
+    DECIDED: L1, L2 and the two equations for dFx_dr, dFx_dt.  NOT decided: the two equations for dFy_dr, dFy_dt (solver limit)."""
+    rules, hashes = Rules("C19"), {}
+    cls = "CzarnyGeometry"
+    c = [PRELUDE, "static real_t %s_factor_xi;" % cls]
+    c.append(closed_form("src/InputFunctions/DomainGeometry/czarnyGeometry.cpp", "%s::initializeGeometry" % cls, rules, hashes, "%s__initializeGeometry" % cls, [], prefix_members=("factor_xi",)))
+    rel = "include/InputFunctions/DomainGeometry/czarnyGeometry.inl"
+    for m in ("Fx", "Fy", "dFx_dr", "dFy_dr", "dFx_dt", "dFy_dt"):
+        c.append(closed_form(rel, "%s::%s" % (cls, m), rules, hashes, "%s__%s" % (cls, m), ARGS4, prefix_members=("factor_xi",)))
+    c.append("#define EPS inverse_aspect_ratio_epsilon")
+    c.append("static real_t P(real_t y, real_t r, real_t s, real_t c) { return (1 - EPS * y) * (1 - EPS * y) - (1 + EPS * EPS + 2 * EPS * (r / Rmax) * c); }")
+    c.append("static real_t Q(real_t y, real_t x, real_t r, real_t s, real_t c) { return y * (1 + EPS * x) - ellipticity_e * CzarnyGeometry_factor_xi * (r / Rmax) * s; }")
+    h = ["void harness(void) {", "  common_setup(); CzarnyGeometry__initializeGeometry();",
+         "  const real_t r = nondet_real(), t = nondet_real(), s = nondet_real(), c = nondet_real(), h = nondet_real();",
+         "  __CPROVER_assume(h != 0 && EPS != 0);",
+         "  const real_t X = CzarnyGeometry__Fx(r, t, s, c), Y = CzarnyGeometry__Fy(r, t, s, c);",
+         "  const real_t Xr = CzarnyGeometry__dFx_dr(r, t, s, c), Xt = CzarnyGeometry__dFx_dt(r, t, s, c), Yr = CzarnyGeometry__dFy_dr(r, t, s, c), Yt = CzarnyGeometry__dFy_dt(r, t, s, c);",
+         "  assume_sqrt_axioms();",
+         "  /* non-degenerate point of the mapping: w = sqrt(..) != 0 and 2 - w != 0 (the code divides by both) */",
+         "  __CPROVER_assume(1 - EPS * X != 0 && 1 + EPS * X != 0);",
+         "  __CPROVER_assert(P(X, r, s, c) == 0, \"OBL:lemma_L1_Fx_satisfies_its_polynomial_relation\");",
+         "  __CPROVER_assert(Q(Y, X, r, s, c) == 0, \"OBL:lemma_L2_Fy_satisfies_its_polynomial_relation\");"]
+    # the four defining equations, cleared of denominators (implicit differentiation of P and Q, see docstring):
+    #   P_y = -2 eps w, P_r = -2 eps c / Rmax, P_c = -2 eps rho, P_s = 0;  Q_y = d, Q_x = eps Y, Q_r = -EX s / Rmax, Q_s = -EX rho, Q_c = 0
+    h += ["  const real_t Py = P(X + h, r, s, c) - P(X - h, r, s, c), Pr = P(X, r + h, s, c) - P(X, r - h, s, c), Ps = P(X, r, s + h, c) - P(X, r, s - h, c), Pc = P(X, r, s, c + h) - P(X, r, s, c - h);",
+          "  const real_t Qy = Q(Y + h, X, r, s, c) - Q(Y - h, X, r, s, c), Qx = Q(Y, X + h, r, s, c) - Q(Y, X - h, r, s, c), Qr = Q(Y, X, r + h, s, c) - Q(Y, X, r - h, s, c),",
+          "               Qs = Q(Y, X, r, s + h, c) - Q(Y, X, r, s - h, c), Qc = Q(Y, X, r, s, c + h) - Q(Y, X, r, s, c - h);"]
+    h += ["  __CPROVER_assert(Py * Xr + Pr == 0, \"OBL:dFx_dr_is_the_r_derivative_of_Fx(implicit relation)\");",
+          "  __CPROVER_assert(Py * Xt + (Ps * c - Pc * s) == 0, \"OBL:dFx_dt_is_the_theta_derivative_of_Fx(implicit relation)\");"]
+    # NOT decided: the two Fy equations  Qy Yr + Qx Xr + Qr == 0  and  Qy Yt + Qx Xt + (Qs c - Qc s) == 0 -- z3 (and cvc5) cannot clear the
+    # nested denominators of the code's dFy_dr / dFy_dt within 400 s, with or without intermediate cuts (tried 2026-10-05)
+    h += [
+          "  __CPROVER_assert(Py != 0 && Qy != 0, \"OBL:the_coefficient_of_the_Jacobian_entry_does_not_vanish(so the linear equation determines it)\");",
+          "  __CPROVER_assert(r != r, \"COVER:reached_end\");", "}"]
+    j = Job("C19.jacobian[CzarnyGeometry]", "\n".join(c + h), "R", unwind=LOGN_UNWIND, timeout=600, bounded=None,
+            functions=["CzarnyGeometry::%s" % m for m in ("Fx", "Fy", "dFx_dr", "dFy_dr", "dFx_dt", "dFy_dt", "initializeGeometry")], covers={"COVER:reached_end"},
+            split=r"^OBL:|^COVER:", split_chunk=1, split_timeout=400, extra=["--no-div-by-zero-check"])
+    j.rules, j.hashes = rules, hashes
+    return j
+
+
 def build_jobs(tier, seed):
-    jobs = [ctor_job(), selection_job()]
+    jobs = [ctor_job(), selection_job(), czarny_job()]
     jobs += [boundary_job(e, b) for (e, b) in pairs_from_select_test_case()]
     jobs += [gyro_job(c) for c in GYRO]
     jobs += [jacobian_job(c) for c in GEOMS]
@@ -400,8 +452,9 @@ EXPLANATION = (
     "verbatim switch structure of GMGPolar::selectTestCase, for EVERY int value of the four options: it throws or selects geometry, profile, "
     "exact solution, boundary data and source term of one and the same problem / profile / geometry (classes decoded from their names by "
     "the repository's naming scheme), each constructed with the solver's parameters. NOT decided: the source "
-    "terms (-div(alpha grad u) + beta u needs symbolic differentiation of 2.7 MB of generated forms), Jacobians of the Czarny and "
-    "Culham geometries (sqrt / series: not polynomial), positivity of alpha.")
+    "terms (-div(alpha grad u) + beta u needs symbolic differentiation of 2.7 MB of generated forms), dFy_dr / dFy_dt of the Czarny geometry "
+    "(dFx_dr / dFx_dt ARE decided: the mapping satisfies the polynomial relation (1 - eps Fx)^2 == 1 + eps^2 + 2 eps (r/Rmax) cos, proved from the "
+    "code with sqrt(x)^2 == x, and the Jacobian entries satisfy its implicit derivative), the Culham geometry (series), positivity of alpha.")
 
 
 def ctor_args(cls):
@@ -483,7 +536,7 @@ def inputs_replay_cb(job, key, label, rec):
     m = re.match(r"C19\.jacobian\[(\w+)\]", job.name)
     if m:
         g = m.group(1)
-        src = head + "#include \"InputFunctions/DomainGeometry/%s.h\"\n" % GEOMS[g]
+        src = head + "#include \"InputFunctions/DomainGeometry/%s.h\"\n" % lower_first(g)
         chk = ("const double h = 1e-6;\n"
                "    const double nxr = (G.Fx(r + h, t, s, c) - G.Fx(r - h, t, s, c)) / (2 * h), nyr = (G.Fy(r + h, t, s, c) - G.Fy(r - h, t, s, c)) / (2 * h);\n"
                "    const double nxt = (G.Fx(r, t + h, std::sin(t + h), std::cos(t + h)) - G.Fx(r, t - h, std::sin(t - h), std::cos(t - h))) / (2 * h);\n"
